@@ -12,6 +12,12 @@ open Lzma Rc Spec
 
 /-! ### byte array splitting -/
 
+theorem initStatus_ne_eof (seg : List Nat) : initStatus seg ≠ .eof := by
+  unfold initStatus
+  cases seg with
+  | nil => simp
+  | cons b0 t => simp only; split_ifs <;> simp
+
 theorem append_split {a b c d : ByteArray} (h : a ++ b = c ++ d) (hs : c.size ≤ a.size) :
     ∃ m, a = c ++ m ∧ d = m ++ b := by
   have h1 : a.extract 0 c.size = c := by
@@ -120,7 +126,7 @@ theorem readChunk_lz_trunc (strict : Bool) (r : RState) (kind : ChunkKind) (seq'
       rw [hinit]
       simp only []
       refine ⟨_, _, rfl, ?_, rfl⟩
-      split <;> simp
+      exact initStatus_ne_eof _
     · intro rd hinit res hres hst
       rw [hinit]
       simp only []
@@ -140,7 +146,7 @@ theorem readChunk_lz_trunc (strict : Bool) (r : RState) (kind : ChunkKind) (seq'
       rw [hinit]
       simp only []
       refine ⟨_, _, rfl, ?_, rfl⟩
-      split <;> simp
+      exact initStatus_ne_eof _
     · intro rd hinit res hres hst
       rw [hinit]
       simp only []
@@ -160,7 +166,7 @@ theorem readChunk_lz_trunc (strict : Bool) (r : RState) (kind : ChunkKind) (seq'
       rw [hinit]
       simp only []
       refine ⟨_, _, rfl, ?_, rfl⟩
-      split <;> simp
+      exact initStatus_ne_eof _
     · intro rd hinit res hres hst
       rw [hinit]
       simp only []
@@ -180,7 +186,7 @@ theorem readChunk_lz_trunc (strict : Bool) (r : RState) (kind : ChunkKind) (seq'
       rw [hinit]
       simp only []
       refine ⟨_, _, rfl, ?_, rfl⟩
-      split <;> simp
+      exact initStatus_ne_eof _
     · intro rd hinit res hres hst
       rw [hinit]
       simp only []
